@@ -5,7 +5,7 @@ import multiprocessing
 
 from . import common, tlc, minipy as mp
 
-BOUNDS = dict(MaxTrip=2, MaxSteps=60, MaxDepth=3, MaxDec=8)
+BOUNDS = dict(MaxTrip=2, MaxSteps=60, MaxDepth=3, MaxDec=8, IntMax=2)
 
 
 def cfg_text(spec='Spec', invariants=('Emit',), bounds=None, constraint='DecBound'):
@@ -47,7 +47,7 @@ def _validate_chunk(args):
         p = progs[pid - 1]
         if pid not in rendered:
             rendered[pid] = mp.render(p)[0]
-        res = mp.run_py(rendered[pid], p, rec['dec'])
+        res = mp.run_py(rendered[pid], p, rec['dec'], inp=rec.get('inp'))
         if not mp.same_observation(rec, res):
             bad.append(dict(pid=pid, dec=rec['dec'], src=rendered[pid], spec_log=rec['log'], spec_out=mp.spec_outcome(rec),
                             py_log=res['log'], py_out=res['out'], py_used=res['used']))
